@@ -29,7 +29,7 @@ def gen_cases(tier):
         shape = i % 8
         nv = rng.choice([2, 3, 3, 4, 4, 5, 6])
         if shape >= 6:
-            cases.append(kaykobad_case(rng, i + 1, tier))
+            cases.append(tlp_case(rng, i + 1, tier) if i % 16 >= 14 else kaykobad_case(rng, i + 1, tier))
             continue
         vs = gen.VARS6[6 - nv :]
         ne = 1 if shape in (0, 1, 2) else rng.choice([1, 2, 2])
@@ -114,6 +114,29 @@ def kaykobad_case(rng, cid, tier):
     if tier == "quick":
         cfgs = rng.sample(cfgs, 6)
     return {"id": cid, "S": S, "ctx": ctx, "elim": ys, "cfgs": cfgs}
+
+
+def tlp_case(rng, cid, tier):
+    """Tactic 5 with two eliminated variables in the term and a DEGENERATE optimum of its LP: several
+    context rows are active at the optimum (all pass through one point), the row matrix is not symmetric,
+    and only some pairs of active rows bound the term with non-negative multipliers."""
+    ys = ["y1", "y2"]
+    a = {y: rng.choice([1, 2, 3]) * rng.choice([1, 1, -1]) for y in ys}
+    term = (dict(a, w=rng.choice([-1, 1, 2])), rng.randint(2, 10))
+    px = {y: rng.choice([0, 0, 1, -1]) for y in ys}           # the common point of the active rows
+    ctx = []
+    for _ in range(rng.randint(3, 4)):
+        co = {ys[0]: rng.choice([1, 2, 3, -1]), ys[1]: rng.choice([0, 1, 1, 2, -1])}
+        co = {v: c for v, c in co.items() if c}
+        if rng.random() < 0.4:
+            co["u"] = rng.choice([-1, 1])
+        ctx.append((co, sum(c * px.get(v, 0) for v, c in co.items())))
+    ctx.append(({"u": 1}, 0))
+    if rng.random() < 0.5:
+        ctx.append(({"u": -1}, rng.randint(0, 3)))
+    rng.shuffle(ctx)
+    cfgs = [(op, o, False) for op in ("refine", "relax") for o in ([5], [5, 1, 2, 3, 4], [5, 2])]
+    return {"id": cid, "S": [term], "ctx": ctx, "elim": ys, "cfgs": cfgs}
 
 
 def exhaustive_cases(base):
